@@ -48,7 +48,9 @@ func verifExpBase() int64 {
 func verifFinite(name string, d *Decimal) {
 	K := verifParamInt("K")
 	W := verifParamInt("W")
-	base := verifExpBase()
+	// an optional per-operand offset of the exponent window (e.g. "ybase": exponent gaps
+	// beyond the 128-entry power-of-ten table)
+	base := verifExpBase() + verifParamIntOr(name+"base", 0)
 	verifNondetCoeff(name+"c", &d.Coeff, int(K))
 	d.Negative = verifNondetBool(name + "neg")
 	d.Exponent = int32(verifNondetInt(name+"e", base-W, base+W))
